@@ -109,6 +109,7 @@ type world struct {
 	unlocked  map[string]bool     // liquidity stake entries whose expiration the administrator brought forward (lockbounds.go)
 	revoking  map[string]uint64   // pillar name -> frontier height at which its owner's Revoke was sent (lockbounds.go)
 	pending   int
+	proxyPref map[types.Address]bool // htlc: the last ACCEPTED AllowProxyUnlock (true) / DenyProxyUnlock (false) of an address
 }
 
 type madeEntry struct {
@@ -327,6 +328,20 @@ func (w *world) receiveOne(c *contractDef, s *nom.AccountBlock) {
 		return
 	}
 	out.Oracle(true, "receive-block-not-insertable", nil)
+	if exec.ReturnedError == nil && c.Addr == types.HtlcContract && (mname == definition.AllowHtlcProxyUnlockMethodName || mname == definition.DenyHtlcProxyUnlockMethodName) {
+		// the proxy-unlock preference of the sender is what its last accepted call said, kept here independently of
+		// the contract's storage; and the storage must say the same
+		if w.proxyPref == nil {
+			w.proxyPref = map[types.Address]bool{}
+		}
+		want := mname == definition.AllowHtlcProxyUnlockMethodName
+		w.proxyPref[s.Address] = want
+		got := true
+		if pi, err := definition.GetHtlcProxyUnlockInfo(w.storageOf(c.Addr), s.Address); err == nil {
+			got = pi.Allowed
+		}
+		out.Oracle(got == want, "htlc-proxy-preference-is-the-last-accepted-call", M{"address": s.Address.String(), "call": mname, "stored_allowed": got})
+	}
 	if ma, e := w.nd.Ch.GetFrontierMomentumStore().GetMomentumByHeight(blk.MomentumAcknowledged.Height); e == nil && ma != nil {
 		w.embAfter(c, s, pre, ma, exec.ReturnedError, blk)
 		if w.locks {
